@@ -174,6 +174,51 @@ Definition pass_complete (d : N) (ls : list tlab) (out : list tout) : bool :=
   | None => false
   end.
 
+(* ---- timer v d: one task (task 0); polled when it is due, before unsubscribe(), it emits the item
+   and the completion, both in that very poll ---- *)
+Record mstate := {
+  m_now : N;
+  m_ran : bool;
+  m_unsub : bool;
+  m_armed : option N;
+  m_owed : nat                       (* deliveries the label being processed still has to make *)
+}.
+
+Definition m0 : mstate := {| m_now := 0; m_ran := false; m_unsub := false; m_armed := None; m_owed := 0 |}.
+
+Definition m_label (d : N) (m : mstate) (l : option tlab) : mstate :=
+  match l with
+  | Some (LAdv dt) => {| m_now := m_now m + dt; m_ran := m_ran m; m_unsub := m_unsub m; m_armed := m_armed m; m_owed := 0 |}
+  | Some LUnsub => {| m_now := m_now m; m_ran := m_ran m; m_unsub := true; m_armed := m_armed m; m_owed := 0 |}
+  | Some (LRun O) =>
+      if negb (m_ran m) && negb (m_unsub m) then
+        match m_armed m with
+        | Some a =>
+            if a + d <=? m_now m
+            then {| m_now := m_now m; m_ran := true; m_unsub := m_unsub m; m_armed := m_armed m; m_owed := 2 |}
+            else {| m_now := m_now m; m_ran := false; m_unsub := m_unsub m; m_armed := m_armed m; m_owed := 0 |}
+        | None =>
+            if d =? 0
+            then {| m_now := m_now m; m_ran := true; m_unsub := m_unsub m; m_armed := m_armed m; m_owed := 2 |}
+            else {| m_now := m_now m; m_ran := false; m_unsub := m_unsub m; m_armed := Some (m_now m); m_owed := 0 |}
+        end
+      else {| m_now := m_now m; m_ran := m_ran m; m_unsub := m_unsub m; m_armed := m_armed m; m_owed := 0 |}
+  | _ => {| m_now := m_now m; m_ran := m_ran m; m_unsub := m_unsub m; m_armed := m_armed m; m_owed := 0 |}
+  end.
+
+Definition m_step (d : N) (ls : list tlab) (m : mstate) (x : tout) : option mstate :=
+  match x with
+  | TMark j => match m_owed m with O => Some (m_label d m (nth_error ls j)) | S _ => None end
+  | TOut _ _ => Some {| m_now := m_now m; m_ran := m_ran m; m_unsub := m_unsub m; m_armed := m_armed m; m_owed := Nat.pred (m_owed m) |}
+  | _ => Some m
+  end.
+
+Definition timer_complete (d : N) (ls : list tlab) (out : list tout) : bool :=
+  match walk (m_step d ls) m0 out with
+  | Some m => Nat.eqb (m_owed m) 0
+  | None => false
+  end.
+
 (* the predicate for operator `o` (the other operators are not judged by it) *)
 Definition timed_complete (o : top) (ls : list tlab) (out : list tout) : bool :=
   match o with
@@ -181,5 +226,6 @@ Definition timed_complete (o : top) (ls : list tlab) (out : list tout) : bool :=
   | TObserveOn => relay_complete 0 false ls out
   | TDelaySubscription d => pass_complete d ls out
   | TSubscribeOn => pass_complete 0 ls out
+  | TTimer _ d => timer_complete d ls out
   | _ => true
   end.
